@@ -18,6 +18,7 @@ EXTENDS LabelExpand, SequencesExt, Json
 
 CONSTANTS
     Tpls,        \* template ids offered
+    Ords,        \* presentation orders offered (subset of {"std", "swap", "rev", "swaprev"}, see LabelExpand!Reorder)
     MaxNL,       \* label counts 1..MaxNL per labelled compound
     MaxL,        \* bound on max(S, P) of every mapped reaction (cases beyond it are not built)
     ShortMaps,   \* TRUE: also maps shorter than the substrates' atoms (must be rejected)
@@ -25,9 +26,9 @@ CONSTANTS
     ArgMode,     \* "occurrence" | "last"
     EmitOn
 
-VARIABLES tpl, nl, maps, tgt, ci, ri, req, stage,
+VARIABLES tpl, ord, nl, maps, tgt, ci, ri, req, stage,
           sc      \* the finished case with everything the definition predicts for it (filled in once, by the last step)
-vars == <<tpl, nl, maps, tgt, ci, ri, req, stage, sc>>
+vars == <<tpl, ord, nl, maps, tgt, ci, ri, req, stage, sc>>
 
 Empty == [n \in {} |-> 0]
 Rx(name, subs, prods, args, mapped) ==
@@ -70,7 +71,7 @@ Tpl(id) ==
                                       Rx("v1", <<"A">>, <<"B">>, <<"k1", "A">>, TRUE),
                                       Rx("v2", <<"B">>, <<>>, <<"k2", "B">>, TRUE)>>]
 
-T == Tpl(tpl)
+T == Reorder(Tpl(tpl), ord)
 
 \* the content built so far (maps filled in as far as chosen)
 Content ==
@@ -86,6 +87,7 @@ NextMapped(j) == IF \E m \in MappedIdx : m > j THEN Min({m \in MappedIdx : m > j
 
 Init ==
     /\ tpl \in Tpls
+    /\ ord \in Ords
     /\ nl = Empty /\ maps = Empty /\ tgt = 0 /\ ci = 1 /\ ri = 0 /\ req = Empty
     /\ stage = "nl"
     /\ sc = <<>>
@@ -99,7 +101,7 @@ PickNL ==
        ELSE /\ ri' = NextMapped(0)
             /\ stage' = "len"
             /\ UNCHANGED <<nl, ci>>
-    /\ UNCHANGED <<tpl, maps, tgt, req, sc>>
+    /\ UNCHANGED <<tpl, ord, maps, tgt, req, sc>>
 
 PickLen ==
     /\ stage = "len"
@@ -109,7 +111,7 @@ PickLen ==
                 tgt' = len
     /\ maps' = maps @@ (ri :> <<>>)
     /\ stage' = "map"
-    /\ UNCHANGED <<tpl, nl, ci, ri, req, sc>>
+    /\ UNCHANGED <<tpl, ord, nl, ci, ri, req, sc>>
 
 PickEntry ==
     /\ stage = "map"
@@ -120,7 +122,7 @@ PickEntry ==
                THEN ri' = NextMapped(ri) /\ stage' = "len" /\ ci' = ci
                ELSE ri' = ri /\ stage' = "req" /\ ci' = 1
             /\ UNCHANGED maps
-    /\ UNCHANGED <<tpl, nl, tgt, req, sc>>
+    /\ UNCHANGED <<tpl, ord, nl, tgt, req, sc>>
 
 \* every way to ask for initial label on a compound with n positions
 ReqMenu(n) ==
@@ -151,14 +153,14 @@ NoReq == [k |-> "none", ps |-> <<>>]
 Compute(rq) ==
     LET b == Content
     IN IF Outcome(b) = "ok" /\ AllProper(b)
-       THEN [ok |-> TRUE, tpl |-> tpl, b |-> b, req |-> rq, outcome |-> "ok",
+       THEN [ok |-> TRUE, tpl |-> tpl, ord |-> ord, b |-> b, req |-> rq, outcome |-> "ok",
              rxns |-> LabelledRxns(b, "occurrence"),
              init |-> LInit(b, [c \in CpdSet(b) |-> IF c \in DOMAIN rq THEN rq[c] ELSE NoReq]),
              pts  |-> [k \in 1..NPts |->
                          LET y  == Point(b, k)
                              tt == Totals(b, y)
                          IN [y |-> y, dy |-> LRhs(b, y, ArgMode), tot |-> tt, base |-> BRhs(b, tt)]]]
-       ELSE [ok |-> FALSE, tpl |-> tpl, b |-> b, req |-> rq, outcome |-> Outcome(b)]
+       ELSE [ok |-> FALSE, tpl |-> tpl, ord |-> ord, b |-> b, req |-> rq, outcome |-> Outcome(b)]
 
 PickReq ==
     /\ stage = "req"
@@ -173,7 +175,7 @@ PickReq ==
        ELSE /\ stage' = "done"
             /\ sc' = Compute(req)
             /\ UNCHANGED <<req, ci>>
-    /\ UNCHANGED <<tpl, nl, maps, tgt, ri>>
+    /\ UNCHANGED <<tpl, ord, nl, maps, tgt, ri>>
 
 Next == PickNL \/ PickLen \/ PickEntry \/ PickReq
 Done == stage = "done"
